@@ -203,6 +203,21 @@ def main():
             else:
                 p0in = [float(x) for x in p0]
         pops = numpy.array(prop.propagate(p0in))
+
+        def actual_truncation(Km, pvec):
+            """error the degree-4 expansion itself makes on this axis (the a
+            priori bound below is an upper estimate of it and is very loose
+            for steps of the order of the relaxation times)"""
+            T_ = sum(numpy.linalg.matrix_power(Km * dt, l) /
+                     math.factorial(l) for l in range(5))
+            cur = numpy.asarray(pvec, dtype=float)
+            worst_ = 0.0
+            for k_, t_ in enumerate(ta.data):
+                ex_ = scipy.linalg.expm(Km * (t_ - t0)).dot(
+                    numpy.asarray(pvec, dtype=float))
+                worst_ = max(worst_, float(numpy.abs(cur - ex_).sum()))
+                cur = T_.dot(cur)
+            return worst_
         # reference: spec'd Taylor polynomial and exact exponential
         L = 4
         T = sum(numpy.linalg.matrix_power(K * dt, l) / math.factorial(l)
@@ -228,7 +243,9 @@ def main():
         if sums > 1e-12 * Nt:
             ck.violation("sum-conserved", "propagate", sample, rp)
         ck.case("matches-expm", ("num", s), sample=sample)
-        if err > 10 * bound + 1e-12:
+        etr = actual_truncation(K, p0)
+        sample["expansion_error"] = etr
+        if err > min(10 * bound, 3 * etr + 1e-10) + 1e-12:
             ck.violation("matches-expm", "propagate", sample, rp)
         if admissible:
             ck.case("non-negative", ("num", s), sample=sample)
@@ -259,7 +276,8 @@ def main():
             err2 = float(numpy.abs(pops2 - exact2).sum(axis=1).max())
             ck.case("matches-expm-after-edit", ("num", s),
                     sample=dict(N=N, err=err2, bound=bound2))
-            if err2 > 10 * bound2 + 1e-12:
+            if err2 > min(10 * bound2,
+                          3 * actual_truncation(K2, p0) + 1e-10) + 1e-12:
                 ck.violation("matches-expm", "propagate-after-set_rate",
                              dict(N=N, err=err2, bound=bound2),
                              dict(kind="propagate-after-edit", K=K.tolist(),
@@ -333,7 +351,8 @@ def main():
         if sums3 > 1e-12 * Nt * max(1.0, float(numpy.abs(pops3).max())):
             ck.violation("sum-conserved", "propagate-after-matrices", smp3,
                          rp3)
-        if err3 > 10 * bound3 + 1e-12:
+        if err3 > min(10 * bound3,
+                      3 * actual_truncation(K, p0) + 1e-10) + 1e-12:
             ck.violation("matches-expm", "propagate-after-matrices", smp3,
                          rp3)
 
